@@ -1,5 +1,5 @@
 (* C20 -- ExposeHostPort accepts exactly port[-port][/tcp|/udp]. *)
-From QV Require Import Model.Base Model.PortRange Spec.PortRe Proofs.C20.
+From QV Require Import Model.Base Generated.Tables Model.Quote Model.PortRange Model.Unit Model.Names Model.Convert Spec.PortRe Proofs.C07 Proofs.C20 Proofs.C02shape.
 
 (* the hand-written recogniser accepts exactly the regular language, for every code-point string *)
 Theorem C20_exact : forall s : str, is_port_range s = true <-> PortRe s.
@@ -11,5 +11,36 @@ Theorem C20_pinned_refuted :
    is_port_range_pinned (s2l "1-/udp") = true) /\
   (~ PortRe (s2l "-80") /\ ~ PortRe (s2l "/tcp") /\ ~ PortRe (s2l "1-/udp")).
 Proof. exact (conj pinned_accepts_bad bad_not_in_language). Qed.
+
+(* ---- the call site: what a converted container does with ExposeHostPort= ---- *)
+(* if the container converts, every effective ExposeHostPort= value, trimmed, is in the language, and the command carries exactly
+   "--expose <trimmed value>" for each of them, in order, as one consecutive run *)
+Theorem C20_callsite_accepts : forall podman exists_path kill_fixed mount_nl u path tbl svc sp t',
+  from_container podman exists_path kill_fixed mount_nl u path tbl = COk (svc, sp, t') ->
+  exists ports before pre post,
+    @lk_all berr u c_CONTAINER_SECTION (s2l "ExposeHostPort") = COk ports /\
+    Forall (fun p => PortRe (trim p)) ports /\
+    vals svc SEC_S (s2l "ExecStart") = before ++ [quote_words (pre ++ flat_map (fun p => [s2l "--expose"; trim p]) ports ++ post)].
+Proof.
+  intros podman ep kf mn u path tbl svc sp t' H.
+  destruct (container_shape _ _ _ _ _ _ _ _ _ _ H) as (before & mods & cname & mid & obj & ports & _ & Hp & F & (m1 & m2 & ->) & _ & E).
+  exists ports, before,
+    (global_words podman mods u c_CONTAINER_SECTION ++ [s2l "run"; s2l "--name"; cname; s2l "--cidfile=%t/%N.cid"; s2l "--replace"; s2l "--rm"] ++ m1),
+    (m2 ++ lookup_all_args u c_CONTAINER_SECTION (s2l "PodmanArgs") ++ obj ++ exec_words u c_CONTAINER_SECTION).
+  split; [exact Hp|]. split.
+  - revert F. apply Forall_impl. intros p Hpr. apply C20_exact. exact Hpr.
+  - rewrite E. f_equal. f_equal. f_equal. rewrite <- !app_assoc. reflexivity.
+Qed.
+
+(* and a value outside the language is never passed on: the conversion of that container fails *)
+Theorem C20_callsite_rejects : forall podman exists_path kill_fixed mount_nl u path tbl ports,
+  @lk_all berr u c_CONTAINER_SECTION (s2l "ExposeHostPort") = COk ports -> Exists (fun p => ~ PortRe (trim p)) ports ->
+  forall r, from_container podman exists_path kill_fixed mount_nl u path tbl <> COk r.
+Proof.
+  intros podman ep kf mn u path tbl ports Hp Hex [[svc sp] t'] H.
+  destruct (container_shape _ _ _ _ _ _ _ _ _ _ H) as (before & mods & cname & mid & obj & ports' & _ & Hp' & F & _).
+  rewrite Hp in Hp'. injection Hp' as <-. apply Exists_exists in Hex. destruct Hex as [p [Hin Hn]].
+  rewrite Forall_forall in F. apply Hn. apply C20_exact. exact (F p Hin).
+Qed.
 
 Check C20_exact : forall s : str, is_port_range s = true <-> PortRe s.
